@@ -13,6 +13,7 @@ from ..ref import wmm as refwmm
 PROP = "C14"
 LEVEL = "exploration"
 SHARDS = {"quick": 4, "thorough": 16}
+THOROUGH_DEPTH = 15      # thorough tier = this many times the base thorough budget (VERIF_DEPTH overrides)
 ROUTES = ["magnetic_field/reused-object", "magnetic_field/fresh-object", "constructor"]
 LAT_REGIONS = ["lat:generic", "lat:equator", "lat:pole", "lat:55", "lat:near-pole"]
 REGIONS = {r: 40 for r in LAT_REGIONS}
